@@ -112,6 +112,9 @@ def shards(tier, seed):
     for drv in ("cip", "logix_noinit", "slc"):
         for pol in ("ok", "large08", "nofclose"):
             sh.append(("histories", drv, pol))
+    # environment dimension: the frames do not depend on whether anybody listens to the library's log
+    sh += [("corpus", "debuglog"), ("corpus", "1/2", "debuglog"), ("histories", "cip", "ok", "debuglog"), ("histories", "logix_noinit", "large08", "debuglog"),
+           ("sweep", 500, "connected", hs[seed % len(hs)], hs[(seed + 3) % len(hs)], "debuglog"), ("sweep", 500, "ucsend", hs[(seed + 1) % len(hs)], hs[(seed + 4) % len(hs)], "debuglog")]
     return sh
 
 
